@@ -740,6 +740,32 @@ func isLastChildAssert(t *ir.Term, fn *ssa.Function) bool {
 	return idx.Op == "bin" && idx.Aux == "-" && idx.Args[0].Op == "len" && ir.Same(idx.Args[0].Args[0], base) && idx.Args[1].Aux == "1"
 }
 
+// emptyKnown: the path has established that the receiver's child list is empty - some branch atom that mentions
+// len(f.Seq) evaluates, for length 0, to the polarity the path took, and for length 1 to the opposite one.
+func emptyKnown(p *ir.Path, fn *ssa.Function) bool {
+	recv := &ir.Term{Op: "param", Aux: fn.Params[0].Name()}
+	l := &ir.Term{Op: "len", Args: []*ir.Term{{Op: "load", Aux: "0", Args: []*ir.Term{{Op: "faddr", Aux: "Seq", Args: []*ir.Term{recv}}}}}}
+	for _, s := range p.Events(ir.KBranch) {
+		if !mentions(s.Atom, l) {
+			continue
+		}
+		at0 := ir.Rebuild(substTerm(s.Atom, l, ir.Const("0")))
+		at1 := ir.Rebuild(substTerm(s.Atom, l, ir.Const("1")))
+		isB := func(t *ir.Term) (bool, bool) {
+			if t.IsConst() && (t.Aux == "true" || t.Aux == "false") {
+				return t.Aux == "true", true
+			}
+			return false, false
+		}
+		v0, ok0 := isB(at0)
+		v1, ok1 := isB(at1)
+		if ok0 && ok1 && v0 == s.Pol && v1 != s.Pol {
+			return true
+		}
+	}
+	return false
+}
+
 func deferredAtom(fn *ssa.Function) *ir.Term {
 	return &ir.Term{Op: "load", Aux: "0", Args: []*ir.Term{{Op: "faddr", Aux: "Deferred", Args: []*ir.Term{{Op: "param", Aux: fn.Params[0].Name()}}}}}
 }
@@ -882,6 +908,10 @@ func appendDiscipline(c *core.Ctx) {
 				ok = false
 				c.Fail("append-discipline", name, lastPos(p), "the last child is a nested sequence but it is not offered the node first (the node would land one level too shallow)")
 			}
+			if lastIsSeq == 0 && len(rec) == 0 && !emptyKnown(p, fn) {
+				ok = false
+				c.Fail("append-discipline", name, lastPos(p), "the node is appended at this level without having looked at the last child (neither found the child list empty nor found the last child not to be a nested sequence): with an open nested context it lands one level too shallow")
+			}
 			if delegated {
 				sawDelegate = true
 				if nLocal != 0 {
@@ -988,6 +1018,10 @@ func unitDiscipline(c *core.Ctx) {
 			if lastIsSeq > 0 && len(rec) == 0 {
 				ok = false
 				c.Fail("unit-discipline", name, lastPos(p), "the last child is a nested sequence but it is not asked to close first")
+			}
+			if lastIsSeq == 0 && len(rec) == 0 && !emptyKnown(p, fn) {
+				ok = false
+				c.Fail("unit-discipline", name, lastPos(p), "this level is closed without having looked at the last child (neither found the child list empty nor found the last child not to be a nested sequence): an open inner context stays open and the enclosing one is closed instead")
 			}
 			if delegated {
 				sawDelegate = true
